@@ -7,7 +7,7 @@
    to completion (false = the consumer stopped it, which must propagate outwards
    exactly as `if !yield(x) { return }` does). *)
 From FoxBase Require Import Bytes.
-From FoxC18 Require Import Cidr Types GoStd ParseIP.
+From FoxC18 Require Import Cidr Types GoStd ParseIP GenRanges.
 Open Scope N_scope.
 
 Definition seq (E : Type) : Type := forall S : Type, (E -> S -> S * bool) -> S -> S * bool.
@@ -86,7 +86,7 @@ Section Items.
   (* parseForwardedListItem; outer None = panic *)
   Definition parse_forwarded_list_item (fwd : bytes) : option (option A) :=
     let '(forPart, _) :=
-      take (split_seq ";" fwd) 4 bytes for_yield [] in
+      take (split_seq ";" fwd) forwarded_max_parts bytes for_yield [] in   (* the limit is regenerated from the source *)
     let forPart := trim_space forPart in
     match trim_matched_ends forPart (S2B """") with
     | None => None
